@@ -203,6 +203,7 @@ private theorem assignRows_shape (s : State α) (rt : Ref) (tlo thi : Option Int
   unfold assignRows
   split
   · rename_i tp sp h1 h2
+    dsimp only
     split
     · right
       simp only [h1, Option.getD_some]
@@ -280,7 +281,8 @@ theorem eval_shape (s : State α) (op : Op α) : Shape s op (eval s op).1 := by
       · exact .none
       · split
         · exact .none
-        · have := Shape.writes (s := s) (op := .setName v name vals) v r [(_, _)] rfl rfl hr
+        · rename_i _ p _ _ vs _
+          have := Shape.writes (s := s) (op := .setName v name vals) v r [(p, vs)] rfl rfl hr
           simpa [addressed, hr] using this
   | setSlice v lo hi srcLo =>
     simp only [eval, withVar]
@@ -401,5 +403,609 @@ theorem wf_run (s : State α) (ops : List (Op α)) (hwf : WF s) : WF (run s ops)
   induction ops generalizing s with
   | nil => exact hwf
   | cons op ops ih => rw [run_cons]; exact ih _ (wf_step s op hwf)
+
+/-! ### what a variable shows -/
+
+/-- the records variable `v` shows in state `s` -/
+def seen (s : State α) (v : String) : List (Record α) :=
+  match find v s.env with
+  | some r => sees s.heap r
+  | none => []
+
+/-- the operations that produce an array `w` from an array `v` -/
+def Op.produces : Op α → Option (String × String)
+  | .slice v w _ _ _ => some (v, w)
+  | .mask v w _ => some (v, w)
+  | .fancy v w _ => some (v, w)
+  | .view v w => some (v, w)
+  | .copy v w => some (v, w)
+  | .deepcopy v w => some (v, w)
+  | .pickle v w => some (v, w)
+  | _ => none
+
+/-- the operations whose result is a COPY: `v.copy()`, `copy.deepcopy(v)`, a pickle round trip, `v[mask]`, `v[[i, j]]` -/
+def Op.copies : Op α → Option (String × String)
+  | .mask v w _ => some (v, w)
+  | .fancy v w _ => some (v, w)
+  | .copy v w => some (v, w)
+  | .deepcopy v w => some (v, w)
+  | .pickle v w => some (v, w)
+  | _ => none
+
+/-! ### C19: views and slices ALIAS their source -/
+
+/-- `w` shows rows `idx` of what `v` shows, out of the same buffer, with the same vector type -/
+def Aliased (s : State α) (v w : String) (idx : List Nat) : Prop :=
+  ∃ rv rw, find v s.env = some rv ∧ find w s.env = some rw ∧ rw.buf = rv.buf ∧ rw.ty = rv.ty ∧ rw.idx = pick rv.idx idx
+
+/-- reads through an alias are the reindexing of the reads through the source — in whatever state the heap is -/
+theorem c19h_alias_reads {s : State α} {v w : String} {idx : List Nat} (h : Aliased s v w idx) :
+    seen s w = pick (seen s v) idx := by
+  obtain ⟨rv, rw, hv, hw, hb, _, hi⟩ := h
+  simp only [seen, hv, hw, sees, hb, hi, pick_map]
+
+/-- … column by column: what `w[name]` returns is the reindexing of what `v[name]` returns -/
+theorem c19h_alias_getName {s : State α} {v w : String} {idx : List Nat} (h : Aliased s v w idx) (name : String)
+    (c : List (Option α)) (hc : (step s (.getName v name)).2 = .vals c) :
+    (step s (.getName w name)).2 = .vals (pick c idx) := by
+  obtain ⟨rv, rw, hv, hw, hb, ht, hi⟩ := h
+  simp only [step, eval, withVar, hv, hw, ht] at hc ⊢
+  split at hc
+  · cases hc
+  · rename_i p hp
+    cases hc
+    simp only [col, sees, hb, hi, pick_map]
+
+theorem getName_vals_length {s : State α} {v : String} {rv : Ref} (hv : find v s.env = some rv) (name : String)
+    (c : List (Option α)) (hc : (step s (.getName v name)).2 = .vals c) : c.length = rv.idx.length := by
+  simp only [step, eval, withVar, hv] at hc
+  split at hc
+  · cases hc
+  · cases hc; simp [col, sees]
+
+/-- `w = v.view(type(v))` makes `w` an alias of all of `v` -/
+theorem c19h_view_intro (s : State α) (v w : String) (rv : Ref) (hvw : v ≠ w) (hv : find v s.env = some rv) :
+    Aliased (step s (.view v w)).1 v w (List.range rv.idx.length) := by
+  refine ⟨rv, rv, ?_, ?_, rfl, rfl, (pick_range _).symm⟩
+  · rw [find_step _ _ _ (by simp [Op.target, hvw.symm])]; exact hv
+  · simp [step, eval, withVar, hv, apply, find_bind]
+
+/-- `w = v[lo:hi:stp]` makes `w` an alias of the rows `range(len(v))[lo:hi:stp]` of `v` -/
+theorem c19h_slice_intro (s : State α) (v w : String) (lo hi stp : Option Int) (rv : Ref) (ps : List Nat) (hvw : v ≠ w)
+    (hv : find v s.env = some rv) (hps : slicePos lo hi stp rv.idx.length = some ps) :
+    Aliased (step s (.slice v w lo hi stp)).1 v w ps := by
+  refine ⟨rv, ⟨rv.buf, pick rv.idx ps, rv.ty⟩, ?_, ?_, rfl, rfl, rfl⟩
+  · rw [find_step _ _ _ (by simp [Op.target, hvw.symm])]; exact hv
+  · simp [step, eval, withVar, hv, hps, apply, find_bind]
+
+/-- the alias relation survives every operation that does not rebind (or delete) one of the two variables -/
+theorem c19h_alias_step {s : State α} {v w : String} {idx : List Nat} (h : Aliased s v w idx) (op : Op α)
+    (hv : op.target ≠ some v) (hw : op.target ≠ some w) : Aliased (step s op).1 v w idx := by
+  obtain ⟨rv, rw, h1, h2, h3⟩ := h
+  exact ⟨rv, rw, by rw [find_step _ _ _ hv]; exact h1, by rw [find_step _ _ _ hw]; exact h2, h3⟩
+
+/-- … hence every history of such operations -/
+theorem c19h_alias_run {s : State α} {v w : String} {idx : List Nat} (h : Aliased s v w idx) (ops : List (Op α))
+    (hops : ∀ op ∈ ops, op.target ≠ some v ∧ op.target ≠ some w) : Aliased (run s ops) v w idx := by
+  induction ops generalizing s with
+  | nil => exact h
+  | cons op ops ih =>
+    rw [run_cons]
+    exact ih (c19h_alias_step h op (hops op (List.mem_cons_self ..)).1 (hops op (List.mem_cons_self ..)).2)
+      (fun o ho => hops o (List.mem_cons_of_mem _ ho))
+
+/-- **C19, aliasing.**  After `w = v.view(type(v))` or `w = v[lo:hi:stp]`, in EVERY later state reached by operations that
+do not rebind `v` or `w` — name assignments and slice assignments through `v`, through `w`, through any other alias —
+the records `w` shows are the reindexing of the records `v` shows, and so is every named column. -/
+theorem c19h_view_alias (s : State α) (v w : String) (rv : Ref) (hvw : v ≠ w) (hv : find v s.env = some rv)
+    (ops : List (Op α)) (hops : ∀ op ∈ ops, op.target ≠ some v ∧ op.target ≠ some w) :
+    (let s' := run (step s (.view v w)).1 ops
+     seen s' w = seen s' v ∧
+       ∀ name c, (step s' (.getName v name)).2 = .vals c → (step s' (.getName w name)).2 = .vals c) ∧
+    (∀ lo hi stp ps, slicePos lo hi stp rv.idx.length = some ps →
+      let s' := run (step s (.slice v w lo hi stp)).1 ops
+      seen s' w = pick (seen s' v) ps ∧
+        ∀ name c, (step s' (.getName v name)).2 = .vals c → (step s' (.getName w name)).2 = .vals (pick c ps)) := by
+  constructor
+  · have h := c19h_alias_run (c19h_view_intro s v w rv hvw hv) ops hops
+    have hlen : ∀ s' : State α, find v s'.env = some rv → (seen s' v).length = rv.idx.length := by
+      intro s' h'; simp [seen, h', sees]
+    obtain ⟨rv', rw', h1, h2, h3, h4, h5⟩ := h
+    have hrv : rv' = rv := by
+      have := c19h_alias_run (c19h_view_intro s v w rv hvw hv) ops hops
+      have h0 : find v (step s (.view v w)).1.env = some rv := by
+        rw [find_step _ _ _ (by simp [Op.target, hvw.symm])]; exact hv
+      have hrun : ∀ (ops : List (Op α)) (s0 : State α), (∀ op ∈ ops, op.target ≠ some v) → find v s0.env = some rv →
+          find v (run s0 ops).env = some rv := by
+        intro ops
+        induction ops with
+        | nil => intro s0 _ h; exact h
+        | cons op ops ih =>
+          intro s0 ho h
+          rw [run_cons]
+          apply ih _ (fun o hm => ho o (List.mem_cons_of_mem _ hm))
+          rw [find_step _ _ _ (ho op (List.mem_cons_self ..))]; exact h
+      have := hrun ops _ (fun o ho => (hops o ho).1) h0
+      rw [h1] at this; cases this; rfl
+    subst hrv
+    have hal : Aliased (run (step s (.view v w)).1 ops) v w (List.range rv'.idx.length) := ⟨rv', rw', h1, h2, h3, h4, h5⟩
+    refine ⟨?_, ?_⟩
+    · rw [c19h_alias_reads hal]
+      have := hlen _ h1
+      rw [← this, pick_range]
+    · intro name c hc
+      rw [c19h_alias_getName hal name c hc]
+      rw [← getName_vals_length h1 name c hc, pick_range]
+  · intro lo hi stp ps hps
+    have hal := c19h_alias_run (c19h_slice_intro s v w lo hi stp rv ps hvw hv hps) ops hops
+    exact ⟨c19h_alias_reads hal, fun name c hc => c19h_alias_getName hal name c hc⟩
+
+/-- in particular: a write (name assignment, slice assignment) through EITHER variable — or through any third alias — is
+seen through the other at the corresponding positions, because writing operations rebind nothing -/
+theorem c19h_view_alias_write {s : State α} {v w : String} {idx : List Nat} (h : Aliased s v w idx) (op : Op α)
+    (hop : op.target = none) :
+    Aliased (step s op).1 v w idx ∧ seen (step s op).1 w = pick (seen (step s op).1 v) idx := by
+  have := c19h_alias_step h op (by simp [hop]) (by simp [hop])
+  exact ⟨this, c19h_alias_reads this⟩
+
+/-! ### C19: copies are DETACHED -/
+
+/-- no operation of the history writes into buffer `b` (the buffer an operation writes into is the buffer of the variable
+it writes through, IN THE STATE it is executed in) -/
+def Quiet (b : Nat) : State α → List (Op α) → Prop
+  | _, [] => True
+  | s, op :: ops => writeBuf s op ≠ some b ∧ Quiet b (step s op).1 ops
+
+/-- a buffer no operation writes into keeps its contents, whatever else happens -/
+theorem c19h_quiet_buffer (b : Nat) (s : State α) (ops : List (Op α)) (hb : b < s.heap.length) (hq : Quiet b s ops) :
+    (run s ops).heap[b]? = s.heap[b]? := by
+  induction ops generalizing s with
+  | nil => rfl
+  | cons op ops ih =>
+    rw [run_cons, ih _ (Nat.lt_of_lt_of_le hb (heap_step_length s op)) hq.2, heap_step_other s op b hb hq.1]
+
+/-- a variable that is not rebound, over a buffer nobody writes into, shows the same records for ever -/
+theorem c19h_quiet_seen (x : String) (r : Ref) (s : State α) (ops : List (Op α)) (hx : find x s.env = some r)
+    (hb : r.buf < s.heap.length) (hops : ∀ op ∈ ops, op.target ≠ some x) (hq : Quiet r.buf s ops) :
+    find x (run s ops).env = some r ∧ seen (run s ops) x = seen s x := by
+  have hf : find x (run s ops).env = some r := by
+    induction ops generalizing s with
+    | nil => exact hx
+    | cons op ops ih =>
+      rw [run_cons]
+      exact ih _ (by rw [find_step _ _ _ (hops op (List.mem_cons_self ..))]; exact hx)
+        (Nat.lt_of_lt_of_le hb (heap_step_length s op)) (fun o ho => hops o (List.mem_cons_of_mem _ ho)) hq.2
+  refine ⟨hf, ?_⟩
+  simp only [seen, hf, hx]
+  exact sees_congr _ _ _ (c19h_quiet_buffer _ _ _ hb hq)
+
+theorem copies_eval (s : State α) (op : Op α) (v w : String) (hop : op.copies = some (v, w))
+    (hok : (step s op).2 = .ok) : ∃ ty recs, (eval s op).1 = .bindFresh w ty recs := by
+  simp only [step] at hok
+  cases op <;> simp only [Op.copies, Option.some.injEq, Prod.mk.injEq, reduceCtorEq] at hop
+  case mask v' w' bits =>
+    obtain ⟨rfl, rfl⟩ := hop
+    simp only [eval, withVar] at hok ⊢
+    cases hf : find v' s.env with
+    | none => simp [hf] at hok
+    | some rv =>
+      by_cases hm : bits.length = rv.idx.length ∨ bits = []
+      · simp [hm]
+      · simp [hf, hm] at hok
+  case fancy v' w' idxs =>
+    obtain ⟨rfl, rfl⟩ := hop
+    simp only [eval, withVar] at hok ⊢
+    cases hf : find v' s.env with
+    | none => simp [hf] at hok
+    | some rv =>
+      cases hn : normIdxs idxs rv.idx.length with
+      | none => simp [hf, hn] at hok
+      | some ps => simp [hn]
+  case copy v' w' =>
+    obtain ⟨rfl, rfl⟩ := hop
+    simp only [eval, withVar] at hok ⊢
+    cases hf : find v' s.env with
+    | none => simp [hf] at hok
+    | some rv => simp
+  case deepcopy v' w' =>
+    obtain ⟨rfl, rfl⟩ := hop
+    simp only [eval, withVar] at hok ⊢
+    cases hf : find v' s.env with
+    | none => simp [hf] at hok
+    | some rv => simp
+  case pickle v' w' =>
+    obtain ⟨rfl, rfl⟩ := hop
+    simp only [eval, withVar] at hok ⊢
+    cases hf : find v' s.env with
+    | none => simp [hf] at hok
+    | some rv => simp
+
+/-- the result of a copying operation lives in a FRESH buffer: no other variable, old or new, points into it -/
+theorem c19h_copy_fresh (s : State α) (hwf : WF s) (op : Op α) (v w : String) (hop : op.copies = some (v, w))
+    (hok : (step s op).2 = .ok) :
+    ∃ rw, find w (step s op).1.env = some rw ∧ rw.buf = s.heap.length ∧ rw.buf < (step s op).1.heap.length ∧
+      ∀ x r, x ≠ w → find x (step s op).1.env = some r → r.buf ≠ rw.buf ∧ find x s.env = some r := by
+  have key : ∀ ty recs, (eval s op).1 = .bindFresh w ty recs →
+      ∃ rw, find w (step s op).1.env = some rw ∧ rw.buf = s.heap.length ∧ rw.buf < (step s op).1.heap.length ∧
+        ∀ x r, x ≠ w → find x (step s op).1.env = some r → r.buf ≠ rw.buf ∧ find x s.env = some r := by
+    intro ty recs he
+    refine ⟨⟨s.heap.length, List.range recs.length, ty⟩, ?_, rfl, ?_, ?_⟩
+    · simp [step, he, apply, find_bind]
+    · simp [step, he, apply]
+    · intro x r hxw hx
+      have hx' : find x s.env = some r := by
+        have hne : ¬ w = x := fun h => hxw h.symm
+        simpa [step, he, apply, find_bind, hne] using hx
+      exact ⟨Nat.ne_of_lt (hwf x r hx'), hx'⟩
+  obtain ⟨ty, recs, he⟩ := copies_eval s op v w hop hok
+  exact key ty recs he
+
+/-- **C19, detachment.**  After `w = v.copy()` / `copy.deepcopy(v)` / a pickle round trip / `v[mask]` / `v[[i, j]]`:
+(1) whatever happens later — as long as `w` is not rebound and no operation writes through `w` or a later-made alias of `w`
+(`Quiet`: in particular every write through `v` or through any alias of `v`, old or new, is allowed) — `w` shows what it
+showed right after the copy;
+(2) vice versa, every other variable `x` (in particular `v` and each of its aliases) keeps showing the same records under
+every history that does not rebind `x` and does not write into `x`'s buffer — in particular under all writes through `w`. -/
+theorem c19h_copy_detached (s : State α) (hwf : WF s) (op : Op α) (v w : String) (hop : op.copies = some (v, w))
+    (hok : (step s op).2 = .ok) (ops : List (Op α)) :
+    let s1 := (step s op).1
+    (∃ rw, find w s1.env = some rw ∧
+      ((∀ o ∈ ops, o.target ≠ some w) → Quiet rw.buf s1 ops → seen (run s1 ops) w = seen s1 w) ∧
+      ∀ u ru, u ≠ w → find u s1.env = some ru → ru.buf ≠ rw.buf) ∧
+    ∀ x r, x ≠ w → find x s1.env = some r → (∀ o ∈ ops, o.target ≠ some x) → Quiet r.buf s1 ops →
+      seen (run s1 ops) x = seen s1 x := by
+  obtain ⟨rw, h1, h2, h3, h4⟩ := c19h_copy_fresh s hwf op v w hop hok
+  refine ⟨⟨rw, h1, ?_, fun u ru hu hf => (h4 u ru hu hf).1⟩, ?_⟩
+  · intro ho hq
+    exact (c19h_quiet_seen w rw _ ops h1 h3 ho hq).2
+  · intro x r hxw hx ho hq
+    have hlt : r.buf < (step s op).1.heap.length :=
+      Nat.lt_of_lt_of_le (hwf x r (h4 x r hxw hx).2) (heap_step_length s op)
+    exact (c19h_quiet_seen x r _ ops hx hlt ho hq).2
+
+/-- one step, stated with the variables: a write through `u` — `v` itself or any alias of `v` (same buffer) — does not change
+what a variable over ANOTHER buffer shows -/
+theorem c19h_detached_write (s : State α) (u w : String) (ru rw : Ref) (op : Op α) (hu : find u s.env = some ru)
+    (hw : find w s.env = some rw) (hne : ru.buf ≠ rw.buf) (hlt : rw.buf < s.heap.length) (hop : op.writeVar = some u) :
+    seen (step s op).1 w = seen s w := by
+  have hq : Quiet rw.buf s [op] := ⟨by simp [writeBuf, hop, hu, hne], trivial⟩
+  have hw' : op.target ≠ some w := by
+    cases op <;> simp [Op.writeVar] at hop <;> simp [Op.target]
+  exact (c19h_quiet_seen w rw s [op] hw hlt (by intro o ho; simp at ho; subst ho; exact hw') hq).2
+
+/-! ### C19: the vector type is preserved -/
+
+theorem sees_fresh (h : Heap α) (recs : List (Record α)) (ty : VTy) :
+    sees (h ++ [recs]) ⟨h.length, List.range recs.length, ty⟩ = recs := by
+  simp only [sees]
+  apply List.ext_getElem
+  · simp
+  · intro i h1 h2
+    simp at h1
+    simp [rowAt, h1]
+
+/-- what the array-producing operations answer: with the source bound to `rv`, either an error and NO effect at all, or the
+target is bound to an array of `rv`'s vector type showing a reindexing of what the source shows -/
+theorem produces_eval (s : State α) (op : Op α) (v w : String) (hop : op.produces = some (v, w)) :
+    (∃ e, eval s op = (.none, .err e)) ∨
+      ∃ rv r, find v s.env = some rv ∧ (eval s op).2 = .ok ∧ r.ty = rv.ty ∧
+        find w (step s op).1.env = some r ∧ ∃ ps, sees (step s op).1.heap r = pick (sees s.heap rv) ps := by
+  have fresh : ∀ (rv : Ref) (ps : List Nat), find v s.env = some rv →
+      eval s op = (.bindFresh w rv.ty (pick (sees s.heap rv) ps), .ok) →
+      ∃ rv r, find v s.env = some rv ∧ (eval s op).2 = .ok ∧ r.ty = rv.ty ∧
+        find w (step s op).1.env = some r ∧ ∃ ps, sees (step s op).1.heap r = pick (sees s.heap rv) ps := by
+    intro rv ps hv he
+    refine ⟨rv, ⟨s.heap.length, List.range (pick (sees s.heap rv) ps).length, rv.ty⟩, hv, by rw [he], rfl,
+      by simp [step, he, apply, find_bind], ps, ?_⟩
+    simp only [step, he, apply]
+    exact sees_fresh ..
+  have fresh' : ∀ (rv : Ref), find v s.env = some rv →
+      eval s op = (.bindFresh w rv.ty (sees s.heap rv), .ok) →
+      ∃ rv r, find v s.env = some rv ∧ (eval s op).2 = .ok ∧ r.ty = rv.ty ∧
+        find w (step s op).1.env = some r ∧ ∃ ps, sees (step s op).1.heap r = pick (sees s.heap rv) ps := by
+    intro rv hv he
+    apply fresh rv (List.range (sees s.heap rv).length) hv
+    rw [pick_range]; exact he
+  cases op <;> simp only [Op.produces, Option.some.injEq, Prod.mk.injEq, reduceCtorEq] at hop
+  case slice v' w' lo hi stp =>
+    obtain ⟨rfl, rfl⟩ := hop
+    cases hf : find v' s.env with
+    | none => left; exact ⟨.NameError, by simp [eval, withVar, hf]⟩
+    | some rv =>
+      cases hp : slicePos lo hi stp rv.idx.length with
+      | none => left; exact ⟨.ValueError, by simp [eval, withVar, hf, hp]⟩
+      | some ps =>
+        right
+        have he : eval s (.slice v' w' lo hi stp) = (.bindView w' ⟨rv.buf, pick rv.idx ps, rv.ty⟩, .ok) := by
+          simp [eval, withVar, hf, hp]
+        refine ⟨rv, ⟨rv.buf, pick rv.idx ps, rv.ty⟩, rfl, by rw [he], rfl, by simp [step, he, apply, find_bind], ps, ?_⟩
+        simp [step, he, apply, sees, pick_map]
+  case view v' w' =>
+    obtain ⟨rfl, rfl⟩ := hop
+    cases hf : find v' s.env with
+    | none => left; exact ⟨.NameError, by simp [eval, withVar, hf]⟩
+    | some rv =>
+      right
+      have he : eval s (.view v' w') = (.bindView w' rv, .ok) := by simp [eval, withVar, hf]
+      refine ⟨rv, rv, rfl, by rw [he], rfl, by simp [step, he, apply, find_bind], List.range rv.idx.length, ?_⟩
+      have : (sees s.heap rv).length = rv.idx.length := by simp [sees]
+      rw [← this, pick_range]
+      simp [step, he, apply]
+  case mask v' w' bits =>
+    obtain ⟨rfl, rfl⟩ := hop
+    cases hf : find v' s.env with
+    | none => left; exact ⟨.NameError, by simp [eval, withVar, hf]⟩
+    | some rv =>
+      by_cases hm : bits.length = rv.idx.length ∨ bits = []
+      · right; have h := fresh rv (maskPos bits 0) hf (by simp [eval, withVar, hf, hm]); rwa [hf] at h
+      · left; exact ⟨.IndexError, by simp [eval, withVar, hf, hm]⟩
+  case fancy v' w' idxs =>
+    obtain ⟨rfl, rfl⟩ := hop
+    cases hf : find v' s.env with
+    | none => left; exact ⟨.NameError, by simp [eval, withVar, hf]⟩
+    | some rv =>
+      cases hn : normIdxs idxs rv.idx.length with
+      | none => left; exact ⟨.IndexError, by simp [eval, withVar, hf, hn]⟩
+      | some ps => right; have h := fresh rv ps hf (by simp [eval, withVar, hf, hn]); rwa [hf] at h
+  case copy v' w' =>
+    obtain ⟨rfl, rfl⟩ := hop
+    cases hf : find v' s.env with
+    | none => left; exact ⟨.NameError, by simp [eval, withVar, hf]⟩
+    | some rv => right; have h := fresh' rv hf (by simp [eval, withVar, hf]); rwa [hf] at h
+  case deepcopy v' w' =>
+    obtain ⟨rfl, rfl⟩ := hop
+    cases hf : find v' s.env with
+    | none => left; exact ⟨.NameError, by simp [eval, withVar, hf]⟩
+    | some rv => right; have h := fresh' rv hf (by simp [eval, withVar, hf]); rwa [hf] at h
+  case pickle v' w' =>
+    obtain ⟨rfl, rfl⟩ := hop
+    cases hf : find v' s.env with
+    | none => left; exact ⟨.NameError, by simp [eval, withVar, hf]⟩
+    | some rv => right; have h := fresh' rv hf (by simp [eval, withVar, hf]); rwa [hf] at h
+
+/-- **C19, type preservation.**  Every operation that produces an array from an array (`slice view copy deepcopy pickle mask
+fancy`) and succeeds binds its target to an array of the SAME flavor, the same dtype field names (= coordinate system) and
+the same dimension, hence of the same class. -/
+theorem c19h_type_preserved (s : State α) (op : Op α) (v w : String) (hop : op.produces = some (v, w))
+    (hok : (step s op).2 = .ok) :
+    ∃ rv rw, find v s.env = some rv ∧ find w (step s op).1.env = some rw ∧ rw.ty = rv.ty ∧ rw.ty.mom = rv.ty.mom ∧
+      rw.ty.fields = rv.ty.fields ∧ rw.ty.dim = rv.ty.dim ∧ rw.ty.tag = rv.ty.tag := by
+  rcases produces_eval s op v w hop with ⟨e, he⟩ | ⟨rv, r, h1, _, h3, h4, _⟩
+  · simp [step, he] at hok
+  · exact ⟨rv, r, h1, h4, h3, by rw [h3], by rw [h3], by rw [h3], by rw [h3]⟩
+
+/-- … and an integer index returns an element of the array's flavor and coordinate system, holding exactly the record at
+that position (Python's negative indices included); it changes nothing -/
+theorem c19h_type_preserved_intIndex (s : State α) (v : String) (i : Int) (ty : VTy) (rec : Record α)
+    (h : (step s (.intIndex v i)).2 = .elem ty rec) :
+    (step s (.intIndex v i)).1 = s ∧
+      ∃ rv k, find v s.env = some rv ∧ ty = rv.ty ∧ ty.objTag = rv.ty.objTag ∧ normIdx i rv.idx.length = some k ∧
+        rec = ((seen s v)[k]?).getD [] := by
+  simp only [step, eval, withVar] at h ⊢
+  cases hf : find v s.env with
+  | none => simp [hf] at h
+  | some rv =>
+    cases hn : normIdx i rv.idx.length with
+    | none => simp [hf, hn] at h
+    | some k =>
+      simp only [hf, hn, Out.elem.injEq] at h
+      refine ⟨by simp [hn, apply], rv, k, rfl, h.1.symm, by rw [h.1], hn, ?_⟩
+      simp [seen, hf, h.2]
+
+/-! ### C19: the name index is the column -/
+
+theorem pos_eq_none {n : String} {fs : List String} : pos n fs = none ↔ n ∉ fs := by
+  induction fs with
+  | nil => simp [pos]
+  | cons f fs ih =>
+    simp only [pos, List.mem_cons, not_or]
+    by_cases h : f = n
+    · simp [h]
+    · have : ¬ n = f := fun h' => h h'.symm
+      simp [h, this, ih]
+
+/-- **C19, name index.**  `v[name]` is the column, at the position of the addressed field in the dtype, of the records `v`
+shows; the addressed field is `name` itself on a generic array and `_repr_momentum_to_generic[name]` on a momentum array;
+nothing changes.  A name addressing no field of the array is a `ValueError`. -/
+theorem c19h_getName_column (s : State α) (v name : String) (rv : Ref) (hv : find v s.env = some rv) :
+    (step s (.getName v name)).1 = s ∧
+    (∀ p, pos (generic rv.ty.mom name) rv.ty.fields = some p →
+      (step s (.getName v name)).2 = .vals (col p (seen s v))) ∧
+    (generic rv.ty.mom name ∉ rv.ty.fields → (step s (.getName v name)).2 = .err .ValueError) := by
+  simp only [step, eval, withVar, hv, seen]
+  refine ⟨?_, ?_, ?_⟩
+  · split <;> rfl
+  · intro p hp; simp [hp]
+  · intro h; simp [pos_eq_none.mpr h]
+
+/-- every momentum spelling addresses the geometric field (on momentum arrays) … -/
+theorem c19h_getName_synonyms :
+    generic true "px" = "x" ∧ generic true "py" = "y" ∧ generic true "pt" = "rho" ∧ generic true "pz" = "z" ∧
+    generic true "E" = "t" ∧ generic true "e" = "t" ∧ generic true "energy" = "t" ∧
+    generic true "M" = "tau" ∧ generic true "m" = "tau" ∧ generic true "mass" = "tau" ∧
+    (∀ n ∈ ["x", "y", "rho", "phi", "z", "theta", "eta", "t", "tau"], generic true n = n) ∧
+    ∀ n, generic false n = n := by
+  refine ⟨rfl, rfl, rfl, rfl, rfl, rfl, rfl, rfl, rfl, rfl, by decide, fun _ => rfl⟩
+
+/-- … so two spellings of the same field return the same column -/
+theorem c19h_getName_spelling (s : State α) (v n1 n2 : String) (rv : Ref) (hv : find v s.env = some rv)
+    (h : generic rv.ty.mom n1 = generic rv.ty.mom n2) :
+    (step s (.getName v n1)).2 = (step s (.getName v n2)).2 := by
+  simp only [step, eval, withVar, hv, h]
+
+/-- on a GENERIC array a momentum spelling is not a name index -/
+theorem c19h_getName_generic (s : State α) (v name : String) (rv : Ref) (hv : find v s.env = some rv)
+    (hg : rv.ty.mom = false) (hn : name ∉ rv.ty.fields) : (step s (.getName v name)).2 = .err .ValueError := by
+  have := (c19h_getName_column s v name rv hv).2.2
+  simp only [generic, hg] at this
+  exact this hn
+
+/-! ### C16: the frame property -/
+
+theorem mem_pick {β : Type} {l : List β} {ps : List Nat} {x : β} (h : x ∈ pick l ps) : x ∈ l := by
+  simp only [pick, List.mem_filterMap] at h
+  obtain ⟨i, _, hi⟩ := h
+  exact List.mem_of_getElem? hi
+
+/-- **C16, non-writing operations** (`new slice view copy deepcopy pickle mask fancy intIndex getName del dump`): the heap
+is extended at most — every existing buffer keeps its contents — and every variable other than the operation's target
+keeps its `Ref`. -/
+theorem c19h_frame (s : State α) (op : Op α) (hop : op.writeVar = none) :
+    (∃ t, (step s op).1.heap = s.heap ++ t) ∧ (∀ b, b < s.heap.length → (step s op).1.heap[b]? = s.heap[b]?) ∧
+      ∀ x, op.target ≠ some x → find x (step s op).1.env = find x s.env := by
+  refine ⟨?_, fun b hb => heap_step_other s op b hb (by simp [writeBuf, hop]), fun x hx => find_step s op x hx⟩
+  have hs := eval_shape s op
+  simp only [step]
+  generalize (eval s op).1 = eff at hs
+  cases hs with
+  | none => exact ⟨[], by simp [apply]⟩
+  | view w v rv r _ _ _ _ _ _ => exact ⟨[], by simp [apply]⟩
+  | fresh w ty recs _ _ => exact ⟨[recs], rfl⟩
+  | writes v r ws hv _ _ => rw [hop] at hv; cases hv
+  | del v _ _ => exact ⟨[], by simp [apply]⟩
+
+/-- the pure reads (`v[i]`, `v[name]`, `dump`) change nothing at all -/
+theorem c19h_frame_reads (s : State α) (op : Op α) (hw : op.writeVar = none) (ht : op.target = none) :
+    (step s op).1 = s := by
+  have hs := eval_shape s op
+  simp only [step]
+  generalize (eval s op).1 = eff at hs
+  cases hs with
+  | none => rfl
+  | view w v rv r h _ _ _ _ _ => rw [ht] at h; cases h
+  | fresh w ty recs h _ => rw [ht] at h; cases h
+  | writes v r ws hv _ _ => rw [hw] at hv; cases hv
+  | del v h _ => rw [ht] at h; cases h
+
+/-- **C16, writing operations** (`v[name] = …`, `v[lo:hi] = …`): no variable is rebound, no buffer and no record changes its
+length, and the only rows that can differ afterwards are the ADDRESSED rows of the buffer of the variable written through
+(all rows `v` shows for a name assignment, the rows `v[lo:hi]` shows for a slice assignment) — which are rows `v` shows. -/
+theorem c19h_frame_write (s : State α) (op : Op α) (v : String) (hop : op.writeVar = some v) :
+    (step s op).1.env = s.env ∧ (step s op).1.heap.length = s.heap.length ∧
+    (∀ b : Nat, ((step s op).1.heap[b]?).map List.length = (s.heap[b]?).map List.length) ∧
+    (∀ b i, (rowAt (step s op).1.heap b i).length = (rowAt s.heap b i).length) ∧
+    (find v s.env = none → (step s op).1 = s) ∧
+    ∀ r, find v s.env = some r →
+      (∀ b, b ≠ r.buf → (step s op).1.heap[b]? = s.heap[b]?) ∧
+      (∀ b i, b ≠ r.buf ∨ i ∉ addressed s op → rowAt (step s op).1.heap b i = rowAt s.heap b i) ∧
+      ∀ i, i ∈ addressed s op → i ∈ r.idx := by
+  have hs := eval_shape s op
+  have haddr : ∀ r, find v s.env = some r → ∀ i, i ∈ addressed s op → i ∈ r.idx := by
+    intro r hr i hi
+    cases op <;> simp only [Op.writeVar, Option.some.injEq, reduceCtorEq] at hop <;> subst hop <;>
+      simp only [addressed, hr] at hi
+    · exact hi
+    · exact mem_pick hi
+    · exact mem_pick hi
+  simp only [step]
+  generalize (eval s op).1 = eff at hs
+  cases hs with
+  | none => exact ⟨rfl, rfl, fun _ => rfl, fun _ _ => rfl, fun _ => rfl, fun r hr => ⟨fun _ _ => rfl, fun _ _ _ => rfl, haddr r hr⟩⟩
+  | view w v' rv r _ h _ _ _ _ => rw [hop] at h; cases h
+  | fresh w ty recs _ h => rw [hop] at h; cases h
+  | del v' _ h => rw [hop] at h; cases h
+  | writes v' r' ws hv _ hr' =>
+    rw [hop] at hv
+    cases hv
+    refine ⟨rfl, writeCols_length .., fun b => writeCols_buflen .., fun b i => rowAt_writeCols_length .., ?_, ?_⟩
+    · intro h; rw [hr'] at h; cases h
+    · intro r hr
+      rw [hr'] at hr
+      cases hr
+      exact ⟨fun b hb => writeCols_other _ _ _ _ _ hb, fun b i hbi => rowAt_writeCols_row _ _ _ _ _ _ hbi, haddr _ hr'⟩
+
+/-- … and a name assignment touches ONE field: every other field of every record is unchanged -/
+theorem c19h_frame_setName_field (s : State α) (v name : String) (vals : List α) (rv : Ref) (hv : find v s.env = some rv)
+    (b i q : Nat) (hq : pos (generic rv.ty.mom name) rv.ty.fields ≠ some q) :
+    (rowAt (step s (.setName v name vals)).1.heap b i)[q]? = (rowAt s.heap b i)[q]? := by
+  simp only [step, eval, withVar, hv]
+  cases hp : pos (generic rv.ty.mom name) rv.ty.fields with
+  | none => rfl
+  | some p =>
+    cases hb : bcast rv.idx.length vals with
+    | none => rfl
+    | some vs =>
+      simp only [apply]
+      apply rowAt_writeCols_field
+      intro w hw
+      simp only [List.mem_singleton] at hw
+      subst hw
+      intro h
+      apply hq
+      rw [hp, ← h]
+
+/-- **C16, failure atomicity.**  Every operation other than a slice assignment that answers with an exception leaves the
+state exactly as it was.  (A slice assignment `v[lo:hi] = w[…]` whose right-hand side has a field the target lacks raises
+AFTER the earlier fields were written — `c19h_setElems_partial` below; this is the behaviour of `_setitem`.) -/
+theorem c19h_error_no_effect (s : State α) (op : Op α) (e : Err) (herr : (step s op).2 = .err e)
+    (hop : ∀ v lo hi srcLo, op ≠ .setSlice v lo hi srcLo) (hop' : ∀ v lo hi w slo shi, op ≠ .setElems v lo hi w slo shi) :
+    (step s op).1 = s := by
+  simp only [step] at herr ⊢
+  cases op with
+  | setSlice v lo hi srcLo => exact absurd rfl (hop v lo hi srcLo)
+  | setElems v lo hi w slo shi => exact absurd rfl (hop' v lo hi w slo shi)
+  | dump => rfl
+  | new v ty recs =>
+    simp only [eval] at herr ⊢
+    split at herr
+    · cases herr
+    · simp [*, apply]
+  | slice v w lo hi stp =>
+    simp only [eval, withVar] at herr ⊢
+    cases hf : find v s.env with
+    | none => rfl
+    | some rv => cases hp : slicePos lo hi stp rv.idx.length <;> simp [hf, hp, apply] at herr ⊢
+  | mask v w bits =>
+    simp only [eval, withVar] at herr ⊢
+    cases hf : find v s.env with
+    | none => rfl
+    | some rv => by_cases hm : bits.length = rv.idx.length ∨ bits = [] <;> simp [hf, hm, apply] at herr ⊢
+  | fancy v w idxs =>
+    simp only [eval, withVar] at herr ⊢
+    cases hf : find v s.env with
+    | none => rfl
+    | some rv => cases hp : normIdxs idxs rv.idx.length <;> simp [hf, hp, apply] at herr ⊢
+  | view v w => simp only [eval, withVar] at herr ⊢; cases hf : find v s.env <;> simp [hf, apply] at herr ⊢
+  | copy v w => simp only [eval, withVar] at herr ⊢; cases hf : find v s.env <;> simp [hf, apply] at herr ⊢
+  | deepcopy v w => simp only [eval, withVar] at herr ⊢; cases hf : find v s.env <;> simp [hf, apply] at herr ⊢
+  | pickle v w => simp only [eval, withVar] at herr ⊢; cases hf : find v s.env <;> simp [hf, apply] at herr ⊢
+  | del v => simp only [eval, withVar] at herr ⊢; cases hf : find v s.env <;> simp [hf, apply] at herr ⊢
+  | intIndex v i =>
+    simp only [eval, withVar] at herr ⊢
+    cases hf : find v s.env with
+    | none => rfl
+    | some rv => cases hp : normIdx i rv.idx.length <;> simp [hp, apply]
+  | getName v name =>
+    simp only [eval, withVar] at herr ⊢
+    cases hf : find v s.env with
+    | none => rfl
+    | some rv => cases hp : pos (generic rv.ty.mom name) rv.ty.fields <;> simp [hp, apply]
+  | setName v name vals =>
+    simp only [eval, withVar] at herr ⊢
+    cases hf : find v s.env with
+    | none => rfl
+    | some rv =>
+      cases hp : pos (generic rv.ty.mom name) rv.ty.fields with
+      | none => simp [hp, apply]
+      | some p => cases hb : bcast rv.idx.length vals <;> simp [hf, hp, hb, apply] at herr ⊢
+
+/-! ### C19: round trips -/
+
+/-- **C19, round trip.**  `w = v.copy()`, `w = copy.deepcopy(v)` and `w = pickle.loads(pickle.dumps(v))` always succeed on a
+live `v`; `w` then shows exactly the records `v` showed, has `v`'s vector type (class, field names), and nothing `v` or
+any other variable shows has changed. -/
+theorem c19h_roundtrip (s : State α) (op : Op α) (v w : String) (rv : Ref) (hv : find v s.env = some rv)
+    (hop : op = .copy v w ∨ op = .deepcopy v w ∨ op = .pickle v w) :
+    (step s op).2 = .ok ∧
+      ∃ rw, find w (step s op).1.env = some rw ∧ rw.ty = rv.ty ∧ rw.buf = s.heap.length ∧
+        seen (step s op).1 w = seen s v ∧ ∀ b, b < s.heap.length → (step s op).1.heap[b]? = s.heap[b]? := by
+  have h1 : (step s op).2 = .ok ∧ (eval s op).1 = .bindFresh w rv.ty (sees s.heap rv) := by
+    rcases hop with rfl | rfl | rfl <;> simp [step, eval, withVar, hv]
+  refine ⟨h1.1, ⟨s.heap.length, List.range (sees s.heap rv).length, rv.ty⟩, ?_, rfl, rfl, ?_, ?_⟩
+  · simp [step, h1.2, apply, find_bind]
+  · simp only [seen, step, h1.2, apply, find_bind, if_true, hv]
+    exact sees_fresh ..
+  · intro b hb
+    simp [step, h1.2, apply, List.getElem?_append_left hb]
 
 end VH
